@@ -253,8 +253,33 @@ def run_case_py(ns, case, **kw):
                                 kw.get('normalize', True), kw.get('init_code', ''))
         except Exception:
             noise_counter[1] += 1
+    elif h % 3 == 2 and not kw.get('no_history') and (h // 3) % 2 == 0 and case['A'] and kw.get('input_iter') is None:
+        # history of a third kind: the caller's very same list objects held other content when the same query ran a moment ago (rows rotated,
+        # join keys moved); anything remembered per table object (a join index, parsed records) would be stale now
+        A0, B0 = [list(r) for r in case['A']], None if case['B'] is None else [list(r) for r in case['B']]
+        try:
+            case['A'][:] = [list(r) for r in (A0[1:] + A0[:1])]
+            if B0 is not None and B0:
+                rot = B0[1:] + B0[:1]
+                case['B'][:] = [[rot[i][0] if rot[i] else None] + list(r[1:]) if r else [] for i, r in enumerate(B0)]      # same rows, key cells moved
+            noise_counter[0] += 1
+            try:
+                ns.rbql.query_table(qtext, case['A'], [], [], case['B'], case['a_names'], case['b_names'], [], kw.get('normalize', True), kw.get('init_code', ''))
+            except Exception:
+                noise_counter[1] += 1
+        finally:
+            case['A'][:] = A0
+            if B0 is not None:
+                case['B'][:] = B0
     kw.pop('no_history', None)
     o = boundary.run_py(ns, qtext, case['A'], case['B'], case['a_names'], case['b_names'], **kw)
+    case.pop('_query_table_differs', None)
+    if h % 4 == 0 and not (set(kw) - {'init_code', 'normalize'}):
+        # differential: the plain query_table entry point (the library's own TableIterator / TableWriter / registry, not the probes) on the
+        # very same list objects must observe the same rows, header and error class
+        r = boundary.run_query_table(ns, qtext, case['A'], case['B'], case['a_names'], case['b_names'], kw.get('normalize', True), kw.get('init_code', ''))
+        if r['error'] != o.error or (o.error is None and (not refsem.same_rows(r['rows'], [list(x) for x in o.rows]) or (r['header'] or None) != (o.header or None))):
+            case['_query_table_differs'] = 'query_table -> rows %r header %r error %r ; rbql.query with probe iterator / writer -> rows %r header %r error %r' % (r['rows'][:6], r['header'], r['error'], o.rows[:6], o.header, o.error)
     return o
 
 
@@ -400,6 +425,8 @@ def replay_case(ns, res, case, prop_tag, check_header=True, classify=None, ref_k
 def check_py_monitors(res, case, o, expect_b_read=True):
     """Monitors that hold for every query: sources untouched, fresh output rows, writer protocol, join table read once before the first output."""
     sig = feature_sig(case['q'])
+    if case.get('_query_table_differs'):
+        res.violation('py:query-table-differs-from-query:' + sig, '[py] %s: %s (A=%r B=%r)' % (case['query_text'], case.pop('_query_table_differs'), case['A'], case['B']), dict(case, engine='py'))
     if o.sources_changed:
         res.violation('py:sources-modified:' + sig, '[py] %s changed by %s (A=%r B=%r)' % (o.sources_changed, case['query_text'], case['A'], case['B']), dict(case, engine='py'))
     if o.aliased or o.scribble_changed:
